@@ -4,6 +4,7 @@ import (
 	"fmt"
 	"os"
 	"path/filepath"
+	"strconv"
 	"strings"
 	"sync"
 
@@ -349,9 +350,23 @@ func remap(o Op14, l liveSet) Op14 { return o }
 
 // ---- generator ----------------------------------------------------------------------------------------
 
+// c14LongQuery: a shared URL whose parameter list is long enough for an implementation to read it
+// through some structure built on demand (an index, sorted keys): reads of such a list are still reads.
+func c14LongQuery(n int) string {
+	var sb strings.Builder
+	sb.WriteString("http://h/p?")
+	for i := 0; i < n; i++ {
+		if i > 0 {
+			sb.WriteByte('&')
+		}
+		sb.WriteString("k" + strconv.Itoa(i%7) + "=v" + strconv.Itoa(i))
+	}
+	return sb.String() + "#f"
+}
+
 var c14LongPath = "http://h/" + strings.Repeat("seg/", 40) + "x?q=1#f"
 
-var c14Bases = []string{c14LongPath, "foo://h/" + strings.Repeat("a/", 33), "file:///C:/d/e?q=1#f", "foo:opaque?q#f", "mailto:a@b  ?x", "http://h/p?a=1&b=2#f", "http://u:p@h:8/a/b/c?k=v#f", "foo://h/p?x=y", "file:///C:/d/e?q=1", "http://1.2.3.4/x?y", "http://[::1]/?z", "foo:/p/q?r", "http://example.com/a/b/../c?d=e&f", "https://faß.de/ä?ö#ü", "ws://h/", "http://h/a//b/"}
+var c14Bases = []string{c14LongPath, "foo://h/" + strings.Repeat("a/", 33), c14LongQuery(40), c14LongQuery(12), "file:///C:/d/e?q=1#f", "foo:opaque?q#f", "mailto:a@b  ?x", "http://h/p?a=1&b=2#f", "http://u:p@h:8/a/b/c?k=v#f", "foo://h/p?x=y", "file:///C:/d/e?q=1", "http://1.2.3.4/x?y", "http://[::1]/?z", "foo:/p/q?r", "http://example.com/a/b/../c?d=e&f", "https://faß.de/ä?ö#ü", "ws://h/", "http://h/a//b/"}
 var c14Refs = []string{"x", "/y", "../z", "?q=1", "#f", "", "//other/p", "http://abs/", "./a/b", "C|/x", "\\\\h\\p", " a b ", "%zz", "é", "//[::2]/", "//9.8.7.6/", "a?b#c"}
 var c14Inputs = []string{"http://ab\xff/", "http://éb\xff/", "http://\xffh.example/p", "http://日本\xfe\xff.jp/", "http://a\u200db.example/", "http://xn--a.example/", "http://a\u200db.example/", "https://\u05d01.com/", "http://example.com/", "HTTP://EXAMPLE.com:80/a/../b?x#y", "foo:bar", "file:///C|/x", "http://[1:0:0:2::3]/", "http://0x7f.1/", "http://faß.de/", "not a url", "http://h:99999/", "www.example.com/path", "http://a b/", "http://h/%zz?%zz#%zz", "http://u:p@h/", "//h", "http://h/?b=2&a=1&a=0", "https://日本語.jp/パス"}
 
@@ -424,7 +439,7 @@ func Gen14(t *rapid.T) Case14 {
 					o.Value = B(gen.Pick(t, "input", c14Inputs))
 				}
 			case "spread":
-				o.Value = B(gen.Pick(t, "spname", []string{"a", "q", "k", "x", "", "d"}))
+				o.Value = B(gen.Pick(t, "spname", []string{"a", "q", "k", "x", "", "d", "k0", "k6", "k3"}))
 			case "newurl":
 				o.Value = B(gen.Pick(t, "nuvalue", []string{"/a/b", "x", "", "/p q", "/../c", "é"}))
 			case "encode":
